@@ -87,7 +87,8 @@ def evaluate(case):
             if qv > 0 and abs(vv - mean) > 1e-11 * max(1.0, abs(mean)):
                 fails.append(f"merged S(Q={qv!r}) = {vv!r} is not the arithmetic mean {mean!r} of its {len(contrib)} contributions")
                 break
-            if qv > 0 and not (contrib.min() - 1e-12 <= vv <= contrib.max() + 1e-12):
+            tolr = 1e-12 * max(1.0, float(np.abs(contrib).max()))     # the write-back S = Q(S-1)/Q + 1 rounds relative to the value
+            if qv > 0 and not (contrib.min() - tolr <= vv <= contrib.max() + tolr):
                 fails.append("merged value outside [min, max] of its contributions")
                 break
     nd = len(case["datasets"])
